@@ -40,6 +40,9 @@ def regexp_Compile (E : Flamego.Engine) (p : Bytes) : Regexp × Err :=
   | none => ([], 1)
 def Regexp_NumSubexp (E : Flamego.Engine) (re : Regexp) : Int := ((E.compile re).getD 0 : Nat)
 
+/-- `FindStringSubmatch`: the engine's `find`; no match is the nil slice -/
+def Regexp_FindStringSubmatch (E : Flamego.Engine) (re : Regexp) (s : Bytes) : List Bytes := (E.find re s).getD []
+
 /-- a `*bytes.Buffer` is its content -/
 abbrev Buffer := Bytes
 def Buffer_new (s : Bytes) : Buffer := s
